@@ -175,8 +175,27 @@ func ptrEq(a, b *int) bool {
 
 func VH_c11_ptr() {
 	a, b, c := mkPtr("a"), mkPtr("b"), mkPtr("c")
+	// the operands may be the very same pointer
+	switch zz.Choice("alias", 4) {
+	case 1:
+		b = a
+	case 2:
+		c = b
+	case 3:
+		b, c = a, a
+	}
 	monoidLaws(monoid.Ptr(lazy.Done(monoid.Sum[int]())), a, b, c, ptrEq, "monoid.Ptr")
 	semiLaws(semigroup.Ptr(lazy.Done(semigroup.Sum[int]())), a, b, c, ptrEq, "semigroup.Ptr")
+	// meaning: nil is the identity, otherwise the targets are combined (also for p . p)
+	ab := monoid.Ptr(lazy.Done(monoid.Sum[int]())).Combine(a, b)
+	switch {
+	case a == nil:
+		zz.Assert(ptrEq(ab, b), "monoid.Ptr: nil . b = b")
+	case b == nil:
+		zz.Assert(ptrEq(ab, a), "monoid.Ptr: a . nil = a")
+	default:
+		zz.Assert(ab != nil && *ab == *a+*b, "monoid.Ptr combines the targets")
+	}
 }
 
 // ---- Merge*
